@@ -120,8 +120,12 @@ def tlc(r, workdir, module, cfg, env_extra=None, workers=1, timeout=1800, extra_
         if f.endswith(".tla") or f.endswith(".cfg"):
             shutil.copy(os.path.join(SPEC, f), workdir)
     env = dict(os.environ)
-    env["JAVA_TOOL_OPTIONS"] = TLC_JAVA
+    jtmp = os.path.join(workdir, "jtmp")   # TLC leaves an empty tlc-<n> directory in java.io.tmpdir per run
+    os.makedirs(jtmp, exist_ok=True)
+    env["JAVA_TOOL_OPTIONS"] = TLC_JAVA + " -Djava.io.tmpdir=" + jtmp
     env.update(env_extra or {})
+    if "java.io.tmpdir" not in env["JAVA_TOOL_OPTIONS"]:
+        env["JAVA_TOOL_OPTIONS"] += " -Djava.io.tmpdir=" + jtmp
     cmd = ["tlc", "-workers", str(workers), "-metadir", os.path.join(workdir, "meta"), "-config", cfg]
     cmd += (extra_args or []) + [module]
     rc, out = run(cmd, cwd=workdir, env=env, timeout=timeout)
